@@ -27,6 +27,7 @@ import GeoProofs.Lemmas.C07Dispatch
 import GeoProofs.Lemmas.C07Bbox
 import GeoProofs.Lemmas.C07PBase
 import GeoProofs.Lemmas.C07PParts
+import GeoProofs.Lemmas.C07PRings
 
 namespace Geo.Proofs.C07
 open Geo Geo.Proofs.Kernel
@@ -227,6 +228,69 @@ theorem linePoly_zero_iff (a b : Pt) (poly : Poly) :
 theorem lsLs_zero_iff {as bs : List Pt} (h1 : segs as ≠ []) (h2 : segs bs ≠ []) :
     lsLs2 as bs = .fin 0 ↔ lsLsIntersects as bs = true ∨ (∃ q ∈ bs, OnLs q as) ∨ (∃ q ∈ as, OnLs q bs) :=
   lsLs2_zero_iff h1 h2
+
+/-! areal kernels once `intersects` has not fired: the value is the true minimum distance (all pairs
+of points) to the rings that the branch measures. (`RingsPts rs y` = `y` lies on a ring of `rs`. That
+the distance to a disjoint polygon *is* the distance to these rings is spec adequacy S2.) -/
+
+/-- **Line × Polygon**, not intersecting: the minimum over all points of the line and of all rings -/
+theorem linePoly_dist_is_ring_min {a b : Pt} {poly : Poly} (hi : polyLineIntersects poly a b = false)
+    (hr : ∀ r ∈ poly.ext :: poly.ints, segs r ≠ []) {m : Rat} (hm : linePoly2 a b poly = .fin m) :
+    IsMinDist (fun x => SegMem x a b) (RingsPts (poly.ext :: poly.ints)) m :=
+  linePoly2_IsMinDist hi hr hm
+
+example : polyLineIntersects ⟨[⟨0, 0⟩, ⟨4, 0⟩, ⟨0, 4⟩, ⟨0, 0⟩], []⟩ ⟨5, 5⟩ ⟨6, 8⟩ = false ∧
+    ∀ r ∈ (⟨[⟨0, 0⟩, ⟨4, 0⟩, ⟨0, 4⟩, ⟨0, 0⟩], []⟩ : Poly).ext :: (⟨[⟨0, 0⟩, ⟨4, 0⟩, ⟨0, 4⟩, ⟨0, 0⟩], []⟩ : Poly).ints,
+      segs r ≠ [] := by
+  refine ⟨by decide +kernel, ?_⟩
+  intro r hr
+  simp only [List.mem_cons, List.mem_nil_iff, or_false] at hr
+  subst hr
+  simp [segs]
+
+/-- **LineString × Polygon**, exterior branch: the minimum over all points of the line string and of
+the exterior ring -/
+theorem lsPoly_dist_is_ext_min {cs : List Pt} {poly : Poly} (hi : lsPolyIntersects cs poly = false)
+    (hc : segs cs ≠ []) (he : segs poly.ext ≠ [])
+    (hB : (!poly.ints.isEmpty && ringContainsCoord poly.ext (cs.headD ⟨0, 0⟩)) = false)
+    {m : Rat} (hm : lsPoly2 cs poly = .fin m) : IsMinDist (LsPts cs) (LsPts poly.ext) m :=
+  lsPoly2_ext_IsMinDist hi hc he hB hm
+
+example : lsPolyIntersects [⟨5, 5⟩, ⟨6, 8⟩, ⟨9, 9⟩] ⟨[⟨0, 0⟩, ⟨4, 0⟩, ⟨0, 4⟩, ⟨0, 0⟩], []⟩ = false ∧
+    (!(⟨[⟨0, 0⟩, ⟨4, 0⟩, ⟨0, 4⟩, ⟨0, 0⟩], []⟩ : Poly).ints.isEmpty &&
+      ringContainsCoord [⟨0, 0⟩, ⟨4, 0⟩, ⟨0, 4⟩, ⟨0, 0⟩] (([⟨5, 5⟩, ⟨6, 8⟩, ⟨9, 9⟩] : List Pt).headD ⟨0, 0⟩)) = false := by
+  decide +kernel
+
+/- full statement (without `hbb`; it follows from `hB` for a closed exterior ring — a point with
+non-zero winding number lies in the ring's bounding box — not proved here):
+   theorem lsPoly_dist_is_hole_min (hi) (hc) (hr) (hB) (hm) : IsMinDist (LsPts cs) (RingsPts poly.ints) m -/
+/-- **LineString × Polygon**, containment branch: the minimum over all points of the line string and of
+the hole rings -/
+theorem lsPoly_dist_is_hole_min_partial {cs : List Pt} {poly : Poly} (hi : lsPolyIntersects cs poly = false)
+    (hc : segs cs ≠ []) (hr : RingsOk poly.ints)
+    (hbb : bboxDisjoint (getBoundingRect cs) (getBoundingRect poly.ext) = false)
+    (hB : (!poly.ints.isEmpty && ringContainsCoord poly.ext (cs.headD ⟨0, 0⟩)) = true)
+    {m : Rat} (hm : lsPoly2 cs poly = .fin m) : IsMinDist (LsPts cs) (RingsPts poly.ints) m :=
+  lsPoly2_holes_IsMinDist hi hc hr hbb hB hm
+
+example :
+    let poly : Poly := ⟨[⟨0, 0⟩, ⟨9, 0⟩, ⟨9, 9⟩, ⟨0, 9⟩, ⟨0, 0⟩], [[⟨2, 2⟩, ⟨2, 7⟩, ⟨7, 7⟩, ⟨7, 2⟩, ⟨2, 2⟩]]⟩
+    let cs : List Pt := [⟨4, 4⟩, ⟨5, 5⟩]
+    lsPolyIntersects cs poly = false ∧
+    bboxDisjoint (getBoundingRect cs) (getBoundingRect poly.ext) = false ∧
+    (!poly.ints.isEmpty && ringContainsCoord poly.ext (cs.headD ⟨0, 0⟩)) = true := by
+  decide +kernel
+
+/-- **Polygon × Polygon**, exterior branch: the minimum over all points of the two exterior rings -/
+theorem polyPoly_dist_is_ext_min {a b : Poly} (hi : polyPolyIntersects a b = false)
+    (ha : segs a.ext ≠ []) (hb : segs b.ext ≠ [])
+    (hA : (!a.ints.isEmpty && ringContainsCoord a.ext (b.ext.headD ⟨0, 0⟩)) = false)
+    (hB : (!b.ints.isEmpty && ringContainsCoord b.ext (a.ext.headD ⟨0, 0⟩)) = false)
+    {m : Rat} (hm : polyPoly2 a b = .fin m) : IsMinDist (LsPts a.ext) (LsPts b.ext) m :=
+  polyPoly2_ext_IsMinDist hi ha hb hA hB hm
+
+example : polyPolyIntersects ⟨[⟨0, 0⟩, ⟨1, 0⟩, ⟨0, 1⟩, ⟨0, 0⟩], []⟩ ⟨[⟨3, 3⟩, ⟨4, 3⟩, ⟨3, 4⟩, ⟨3, 3⟩], []⟩ = false := by
+  decide +kernel
 
 /-- operands on which the code cannot panic: line strings and rings with at least one segment -/
 def baseOk : Base → Prop
